@@ -54,8 +54,21 @@ def gen_plan(base_seed, i, tier):
     items = rows
     passthrough = []
     if source != "list":
-        items = [({} if r == "<EMPTY-RECORD>" else {"reaction": r, "tag": "t%d-%04x" % (k, rng.getrandbits(16)), "n": k * 7 + 1}) for k, r in enumerate(rows)]
-        passthrough = ["tag", "n"]
+        nasty = ['a,b', 'say "hi"', "two\nlines", "x;y", "plain", "tab\there"]  # text that survives a CSV round trip unchanged
+        items = [({} if r == "<EMPTY-RECORD>" else {"reaction": r, "tag": "t%d-%04x" % (k, rng.getrandbits(16)), "n": k * 7 + 1, "note": rng.choice(nasty)}) for k, r in enumerate(rows)]
+        passthrough = ["tag", "n", "note"] if rng.random() < 0.5 else ["tag", "n"]
+        if source in ("csv", "cli") and rng.random() < 0.3:
+            # a pandas index column as left behind by DataFrame.to_csv of a filtered / re-sorted table
+            labels = rng.sample(range(0, 10 * len(items) + 10), len(items))
+            items = [(dict({"Unnamed: 0": lab}, **it) if it else it) for lab, it in zip(labels, items)]
+        if source in ("dict", "json") and rng.random() < 0.3:
+            # heterogeneous records: extra keys in some rows, other key order
+            for it in items:
+                if it and rng.random() < 0.4:
+                    it["extra"] = rng.getrandbits(8)
+                if it and rng.random() < 0.3:
+                    for k2 in list(it)[:1]:
+                        it[k2] = it.pop(k2)
     cfg = common.gen_config(rng, len(rows), thresholds=(0,))
     cfg["batch_size"] = rng.choice([None, 1, 2, 3, len(rows), len(rows) + 1, rng.randint(1, len(rows) + 1)])
     return {
